@@ -105,6 +105,30 @@ def future_add(conn, a, b, mod, b_is_future):
     return arr
 
 
+def future_add_variants(conn, a, b, i, variant):
+    """operand combinations of Future.add beyond (entry, int) and (entry, entry): the same entry on both sides (through the same handle or
+    through a second handle), a RegFuture operand, Future-indexed entries on one or both sides"""
+    arr = conn.new_array(4, init_values=[a, b, i, 1])
+    if variant == "same handle":
+        x = arr.get_future_index(0)
+        x.add(x)
+    elif variant == "second handle of the same entry":
+        arr.get_future_index(0).add(arr.get_future_index(0))
+    elif variant == "RegFuture operand":
+        r = conn._builder.new_register(b)
+        arr.get_future_index(0).add(r)
+    elif variant == "Future-indexed target":
+        # arr[arr[2]] += b   (i is 0 or 1 ... the entry itself holds the index)
+        arr.get_future_index(arr.get_future_index(2)).add(7)
+    elif variant == "Future-indexed target and operand":
+        # arr[arr[2]] += arr[arr[3]]      (arr[3] == 1)
+        arr.get_future_index(arr.get_future_index(2)).add(arr.get_future_index(arr.get_future_index(3)))
+    else:
+        raise ValueError(variant)
+    conn.flush()
+    return arr
+
+
 def regfuture_add(conn, a, b, mod):
     r = conn._builder.new_register(a)
     if mod is None:
